@@ -57,6 +57,14 @@ Proof.
   rewrite IHl, IHr, !from_width_mirror. apply join_spec_ext. intros x. apply mirror_passes.
 Qed.
 
+Lemma from_width_eq_range : forall d f, from_width d (eq_range_from f) = from_width d f.
+Proof. induction f; cbn [eq_range_from from_width]; congruence. Qed.
+Lemma eval_from_eq_range : forall d f, eval_from d (eq_range_from f) = eval_from d f.
+Proof.
+  induction f as [|k l IHl r IHr on]; cbn [eq_range_from eval_from]; [reflexivity|].
+  rewrite IHl, IHr, !from_width_eq_range. apply join_spec_ext. intros x. apply passes_ext, eq_range_sem3.
+Qed.
+
 (* ------------------------------------------------------------------ select items *)
 Lemma nth_map_lt : forall {A B} (f : A -> B) (l : list A) i d d', (i < length l)%nat -> nth i (map f l) d' = f (nth i l d).
 Proof.
@@ -118,6 +126,10 @@ Proof.
     unfold q_out, q_rows. cbn [q_from q_where]. rewrite eval_from_mirror, !where_rows_filter.
     rewrite (filter_ext_in' (opt_passes (option_map mirror w)) (opt_passes w)); [reflexivity|].
     intros r _. destruct w; cbn; [apply mirror_passes|reflexivity].
+  - (* equality as two inequalities *) injection H as <- <-. rewrite permute_nil. cbn [q_from q_where q_star q_items].
+    unfold q_out, q_rows. cbn [q_from q_where]. rewrite eval_from_eq_range, !where_rows_filter.
+    rewrite (filter_ext_in' (opt_passes (option_map eq_range w)) (opt_passes w)); [reflexivity|].
+    intros r _. destruct w; cbn; [apply passes_ext, eq_range_sem3|reflexivity].
   - exact (ONW comm_top comm_top_sem3 H).
   - exact (ONW assoc_r assoc_r_sem3 H).
   - exact (ONW assoc_l assoc_l_sem3 H).
